@@ -103,7 +103,7 @@ type SDKCase struct {
 	Setting string `json:"setting"`
 	Opt     SDKSrc `json:"opt"`
 	Env     SDKSrc `json:"env"`
-	Gen     SDKSrc `json:"gen"`       // OTEL_ATTRIBUTE_* (span attribute count / value length only)
+	Gen     SDKSrc `json:"gen"`        // OTEL_ATTRIBUTE_* (span attribute count / value length only)
 	RawOpt  bool   `json:"raw_limits"` // span limits: WithRawSpanLimits instead of WithSpanLimits
 	// sampler cases
 	OptSampler string `json:"opt_sampler,omitempty"` // sampler spec, "nil" when invalid
@@ -235,7 +235,11 @@ func genSDK(t *rapid.T) SDKCase {
 		}
 	}
 	sizes := d.comp == "bsp" && (d.name == "batch_size" || d.name == "queue_size")
-	for _, s := range []*SDKSrc{&c.Opt, &c.Env, &c.Gen} {
+	srcs := []*SDKSrc{&c.Opt, &c.Env}
+	if d.hasGen {
+		srcs = append(srcs, &c.Gen)
+	}
+	for _, s := range srcs {
 		s.N = draw("n")
 		s.Raw = strconv.FormatInt(s.N, 10)
 		bads := badInts
@@ -292,9 +296,10 @@ func union(a, b accept) accept {
 	return out
 }
 
-// envMeaning: what an environment text stands for. ok=false: the variable
-// does not decide (unset) and the next source is consulted.
-func envMeaning(c SDKCase, s SDKSrc, generic accept) (a accept, decides bool) {
+// envMeaning: what an environment text stands for. decides=false: the
+// variable counts as unset and the next source is consulted. A nil accept
+// with decides=true: the value has no documented meaning, nothing asserted.
+func envMeaning(c SDKCase, s SDKSrc) (a accept, decides bool) {
 	d := defOf(c.Comp, c.Setting)
 	def := accept{d.def}
 	if s.State == absent {
@@ -303,11 +308,12 @@ func envMeaning(c SDKCase, s SDKSrc, generic accept) (a accept, decides bool) {
 	if s.State == valid {
 		return accept{s.N}, true
 	}
+	if s.Kind == "unset" {
+		return nil, false
+	}
 	switch c.Comp {
 	case "bsp":
 		switch s.Kind {
-		case "unset":
-			return nil, false
 		case "unparsable":
 			return def, true
 		case "negative":
@@ -319,21 +325,10 @@ func envMeaning(c SDKCase, s SDKSrc, generic accept) (a accept, decides bool) {
 			return nil, true
 		}
 	case "blrp":
-		switch s.Kind {
-		case "unset":
-			return nil, false
-		default:
-			return def, true
-		}
+		return def, true
 	case "span_limits":
 		switch s.Kind {
-		case "unset":
-			return nil, false
 		case "unparsable":
-			// documented: the default; "ignored" could also mean the generic variable
-			if generic != nil {
-				return union(def, generic), true
-			}
 			return def, true
 		case "negative":
 			return accept{unlimited}, true
@@ -342,8 +337,6 @@ func envMeaning(c SDKCase, s SDKSrc, generic accept) (a accept, decides bool) {
 		}
 	case "log_limits":
 		switch s.Kind {
-		case "unset":
-			return nil, false
 		case "unparsable":
 			return def, true
 		case "negative":
@@ -361,28 +354,23 @@ func envMeaning(c SDKCase, s SDKSrc, generic accept) (a accept, decides bool) {
 // envResolve: environment (specific, then generic) and default.
 func envResolve(c SDKCase) accept {
 	d := defOf(c.Comp, c.Setting)
-	var genericVal accept
+	lower := accept{d.def}
 	genDecides := false
 	if d.hasGen {
-		genericVal, genDecides = envMeaning(c, c.Gen, nil)
-		if genDecides && genericVal == nil {
-			genDecides = true
+		if g, ok := envMeaning(c, c.Gen); ok {
+			lower, genDecides = g, true
 		}
 	}
-	var genForSpecific accept
-	if genDecides {
-		genForSpecific = genericVal
+	a, decides := envMeaning(c, c.Env)
+	if !decides {
+		return lower
 	}
-	if a, ok := envMeaning(c, c.Env, genForSpecific); ok {
-		if c.Env.State == invalid && c.Env.Kind == "unparsable" && d.hasGen && genDecides && genericVal == nil {
-			return nil
-		}
-		return a
+	if genDecides && c.Env.State == invalid && c.Env.Kind == "unparsable" {
+		// documented (firstInt): the default; "ignored" may also be read as
+		// "the generic variable applies"
+		return union(a, lower)
 	}
-	if genDecides {
-		return genericVal
-	}
-	return accept{d.def}
+	return a
 }
 
 func normLimit(n int64) int64 {
@@ -495,8 +483,16 @@ func (r *logRec) Export(ctx context.Context, rs []sdklog.Record) error {
 }
 func (r *logRec) ForceFlush(context.Context) error { return nil }
 
+// longCtx bounds ForceFlush / Shutdown: 90 s, far beyond anything a healthy
+// component needs, below the 120 s watchdog of vk.
 func longCtx() (context.Context, context.CancelFunc) {
-	return context.WithTimeout(context.Background(), 20*time.Minute)
+	return context.WithTimeout(context.Background(), 90*time.Second)
+}
+
+// noDeadlineCtx is used where the deadline the component itself puts on the
+// export context is what is being observed (hangs are left to the watchdog).
+func noDeadlineCtx() (context.Context, context.CancelFunc) {
+	return context.WithCancel(context.Background())
 }
 
 // ---------------------------------------------------------------------
@@ -513,7 +509,7 @@ func (r *sdkRun) bad(kind string, format string, a ...any) {
 
 func (r *sdkRun) checkDone(what string, err error) {
 	if err != nil && (err == context.DeadlineExceeded || strings.Contains(err.Error(), "deadline exceeded")) {
-		r.bad("hang", "%s did not finish within 20 minutes: %v", what, err)
+		r.bad("hang", "%s did not finish within 90 s: %v", what, err)
 	}
 }
 
@@ -633,6 +629,9 @@ func runBSP(r *sdkRun, acc accept) {
 	}
 	finish := func() {
 		ctx, cancel := longCtx()
+		if c.Setting == "export_timeout" {
+			ctx, cancel = noDeadlineCtx()
+		}
 		defer cancel()
 		r.checkDone("ForceFlush", tp.ForceFlush(ctx))
 		r.checkDone("Shutdown", tp.Shutdown(ctx))
@@ -757,6 +756,9 @@ func runBLRP(r *sdkRun, acc accept) {
 	}
 	finish := func() {
 		ctx, cancel := longCtx()
+		if c.Setting == "export_timeout" {
+			ctx, cancel = noDeadlineCtx()
+		}
 		defer cancel()
 		r.checkDone("ForceFlush", lp.ForceFlush(ctx))
 		r.checkDone("Shutdown", lp.Shutdown(ctx))
@@ -1236,7 +1238,7 @@ func knownSDK() map[string]func(SDKCase, vk.Violation) bool {
 			if c.Opt.State == invalid && c.Opt.N == math.MaxInt64 {
 				return true
 			}
-			return c.Opt.State != valid && c.Env.State == invalid && c.Env.Kind == "maxint"
+			return c.Setting == "queue_size" && c.Opt.State == absent && c.Env.State == invalid && c.Env.Kind == "maxint"
 		},
 	}
 }
@@ -1246,9 +1248,8 @@ func TestSDKEnv(t *testing.T) {
 		Property: "C20", Check: "sdk_env",
 		Rule: "one setting of one SDK component (span batch processor, log batch processor, span limits, log record limits, sampler) with option / variable (/ generic variable) each absent, valid or invalid, texts from {number, \"\", abc, -1, 0, 20 digits, \" 5 \", 1e3, NaN, MaxInt64}; " +
 			"non-trivial = at least two sources provide the setting (sampler: option and OTEL_TRACES_SAMPLER both present); distinct = distinct case encodings",
-		Quick: 2400, Thorough: 30000,
+		Quick: 4000, Thorough: 50000,
 		Gen: genSDK, Run: runSDK,
-		Known:       knownSDK(),
-		CaseTimeout: 25 * time.Minute,
+		Known: knownSDK(),
 	})
 }
